@@ -25,6 +25,8 @@ package cluster
 
 //@ contract (*Node).Copy
 //@   serves C01 C04 C06
+//@   requires[guard] rheld(State.mu)
+//@   loop 1 frame entries(endpoints)
 //@   ensures[fresh] fresh(result)
 //@   ensures[fields] result.ID == n.ID && result.Status == n.Status && result.ProxyAddr == n.ProxyAddr && result.AdminAddr == n.AdminAddr
 //@   ensures[endpoints] forall k string :: result.Endpoints[k] == n.Endpoints[k]
